@@ -154,8 +154,25 @@ def sharing_cases(_=None):
   t1 = fdl.Config(f, (1, None), [(2,)])
   t2 = fdl.Config(f, (1, None), [(2,)])
   pairs.append(('tuples with None', t1, t2, True))
+  # argument values of different container types / different leaves at depth
+  c1, c2 = fdl.Config(dags.node_fn(1), 1), fdl.Config(dags.node_fn(1), 1)
+  pairs += [('list vs tuple', fdl.Config(f, [1, 2]), fdl.Config(f, (1, 2)), False),
+            ('nested list vs tuple', fdl.Config(f, {'k': [[1], 2]}), fdl.Config(f, {'k': [(1,), 2]}), False),
+            ('list vs tuple of Buildables', fdl.Config(f, [c1, c2]), fdl.Config(f, (c1, c2)), False),
+            ('empty list vs empty tuple', fdl.Config(f, []), fdl.Config(f, ()), False),
+            ('equal lists of Buildables', fdl.Config(f, [c1, c2]), fdl.Config(f, [c1, c2]), True),
+            ('leaf differs inside nested container', fdl.Config(f, [(1, {'z': 2})]),
+             fdl.Config(f, [(1, {'z': 3})]), False),
+            ('list length differs', fdl.Config(f, [1, 2]), fdl.Config(f, [1, 2, 2]), False)]
   for name, a, b, want in pairs:
     n += 1
+    if safe_eq(a, b)[0] is True:
+      # congruence with build: equal configurations build structurally identical object graphs
+      try:
+        if canon.built_canon(fdl.build(a)) != canon.built_canon(fdl.build(b)):
+          bad(f'{name}: the configurations compare equal but build different object graphs', name)
+      except Exception as e:   # pylint: disable=broad-except
+        bad(f'{name}: build raised {type(e).__name__}: {e}', name)
     for x, y in ((a, b), (b, a)):
       r, err = safe_eq(x, y)
       if err:
